@@ -38,7 +38,13 @@ def apply_defect(ws: dict, df: dict) -> tuple[dict, set[str]]:
         tgt = uni.defs[df["to"]]
         vers = {tuple(x["ver"]) for x in uni.defs.values() if x["name"] == tgt["name"]}
         v = None
-        for delta in (7, 11, 13, 17, 19, 23, 29, 31):
+        if df.get("alias"):
+            # a version outside 0..255 that would alias an existing one if major and minor were packed into one number
+            M, m = tgt["ver"]
+            cands = [[M - 1, m + 256]] if M >= 1 else []
+            cands += [[M, m + 256], [M + 256, m], [M - 2, m + 512] if M >= 2 else [M, m + 512]]
+            v = cands[df["alias"] % len(cands)]
+        for delta in (7, 11, 13, 17, 19, 23, 29, 31) if v is None else ():
             cand = [tgt["ver"][0], (tgt["ver"][1] + delta) % 256]
             if tuple(cand) not in vers and tuple(cand) != (0, 0):
                 v = cand
@@ -163,6 +169,8 @@ class C09(Check):
             df = {"kind": kind, "at": at, "sec": rng.randrange(2)}
             others = [k for k in msgs if k != at]
             ok = True
+            if kind == "missver" and rng.random() < 0.4:
+                df["alias"] = rng.randrange(1, 8)
             if kind == "case_twin":
                 df["how"], df["spell"] = rng.randrange(2), rng.randrange(2)
             if kind == "dup_ext":
